@@ -426,8 +426,10 @@ def verify_contract(c: Contract, *, only_case=None):
             from . import frame
             frame.reset()           # every path starts from the state the modules were loaded with
             e.sym_rename = None
+            e.sym_names = []
             if not invoke_and_check(e, case, ""):
                 return
+            names, e.sym_names = list(e.sym_names), None
             if e.div_assume:
                 # facts were ASSUMED along this path (non-zero denominators): they must not have made it contradictory --
                 # an identically-zero denominator would otherwise prove every post-condition vacuously
@@ -435,12 +437,18 @@ def verify_contract(c: Contract, *, only_case=None):
             wr = frame.written()
             if wr:
                 # HISTORY: the call wrote module-level state (a cache).  A contract is about every call, not only the first
-                # one after import: the function is called again in the state the first call left behind -- once with
-                # other real-valued inputs (sizes kept: a key made of the sizes alone hits), once with other sizes
-                # (real inputs kept) -- and must still meet its post-condition.
+                # one after import: the function is called again in the state the first call left behind, once per named
+                # input symbol with ONLY THAT symbol replaced by a fresh one (a memo whose key leaves out an input the
+                # result depends on hits, with a stale value), once with all arrays replaced, and finally with all
+                # real-valued / all integer inputs replaced -- each later call must still meet the post-condition.
                 e.assumptions_used.add(f"module-level state written by {c.qualname}: {', '.join(wr)} -- later calls checked in that state")
-                for rename, tag in (({"real": "~2", "int": ""}, "second call, other real-valued inputs"),
-                                    ({"real": "", "int": "~3"}, "third call, other sizes")):
+                scal = [n for n, k in names if k in ("int", "real")][:8]
+                plans = [({"only": {n}, "suffix": f"~{j + 2}"}, f"later call, only '{n}' changed") for j, n in enumerate(scal)]
+                if any(k == "array" for _, k in names):
+                    plans.append(({"only": {"<arrays>"}, "suffix": "~a"}, "later call, only the array inputs changed"))
+                plans += [({"real": "~r", "int": "", "array": "~r"}, "second call, other real-valued inputs"),
+                          ({"real": "", "int": "~i", "array": ""}, "third call, other sizes")]
+                for rename, tag in plans:
                     e.sym_rename = rename
                     try:
                         if not invoke_and_check(e, case, f"[{tag}, after a first call that wrote {', '.join(wr)}] "):
